@@ -141,3 +141,44 @@ def note_contexts(text):
         elif k == 'data':
             out.append((i, [(p['clef'], p['key'], p['meter']) for p in paths]))
     return out
+
+
+def project(text, keep):
+    """Text-level column projection: delete the columns that descend from the header cells whose index is not in `keep`
+    (through splits and joins), drop the lines left empty or all-null.  -> projected text, or None when the text is not
+    trackable (cell count inconsistent with its own spine operators)."""
+    out = []
+    owner = None
+    for ln in split_lines(text):
+        if ln.startswith('!!') or ln == '':
+            continue
+        cells = ln.split('\t')
+        if owner is None:
+            if not all(c.startswith('**') for c in cells):
+                return None
+            owner = list(range(len(cells)))
+        elif len(cells) != len(owner):
+            return None
+        kept = [c for c, o in zip(cells, owner) if o in keep]
+        if kept and not all(c in ('.', '*', '') for c in kept):
+            out.append('\t'.join(kept))
+        if any(c in ('*^', '*v', '*-') for c in cells) and not all(c.startswith('**') for c in cells):
+            new = []
+            j = 0
+            while j < len(cells):
+                c = cells[j]
+                if c == '*^':
+                    new += [owner[j], owner[j]]
+                elif c == '*-':
+                    pass
+                elif c == '*v':
+                    k = j
+                    while k + 1 < len(cells) and cells[k + 1] == '*v' and owner[k + 1] == owner[j]:
+                        k += 1
+                    new.append(owner[j])
+                    j = k
+                else:
+                    new.append(owner[j])
+                j += 1
+            owner = new
+    return ''.join(l + '\n' for l in out)
